@@ -124,11 +124,14 @@ type builder struct {
 
 func newBuilder(maxTTL int64) *builder { return &builder{md: newModel(maxTTL)} }
 
-func (b *builder) set(k string, ttl int64) { b.md.set(k, "", ttl); b.ops = append(b.ops, sop{K: "set", Key: k, TTL: ttl}) }
-func (b *builder) get(k string)            { b.ops = append(b.ops, sop{K: "get", Key: k}) }
-func (b *builder) del(k string)            { b.md.del(k); b.ops = append(b.ops, sop{K: "del", Key: k}) }
-func (b *builder) cleanup()                { b.ops = append(b.ops, sop{K: "cleanup"}) }
-func (b *builder) reset()                  { b.md.reset(); b.ops = append(b.ops, sop{K: "reset"}) }
+func (b *builder) set(k string, ttl int64) {
+	b.md.set(k, "", ttl)
+	b.ops = append(b.ops, sop{K: "set", Key: k, TTL: ttl})
+}
+func (b *builder) get(k string) { b.ops = append(b.ops, sop{K: "get", Key: k}) }
+func (b *builder) del(k string) { b.md.del(k); b.ops = append(b.ops, sop{K: "del", Key: k}) }
+func (b *builder) cleanup()     { b.ops = append(b.ops, sop{K: "cleanup"}) }
+func (b *builder) reset()       { b.md.reset(); b.ops = append(b.ops, sop{K: "reset"}) }
 func (b *builder) adv(d time.Duration) {
 	if d <= 0 {
 		return
@@ -330,7 +333,11 @@ func runSeq(t *testing.T, idx int, pl seqPlan) {
 			got, ok := c.Get(key)
 			e := md.m[key]
 			want := md.live(key)
-			logf("%s get(%s) -> %q,%v want-hit=%v", site, key, got, ok, want)
+			label := "get"
+			if site != "get" {
+				label = site + " get"
+			}
+			logf("%s(%s) -> %q,%v want-hit=%v", label, key, got, ok, want)
 			pre := "seq/" + site + "/"
 			switch {
 			case ok && !want:
@@ -521,7 +528,7 @@ func runSeq(t *testing.T, idx int, pl seqPlan) {
 	nontrivial := hits > 0 && missesOfSet > 0
 	rec.Case(idx, desc, nontrivial)
 	rec.Count("cases."+pl.mode, 1)
-	if rec.WantSample() && nontrivial && idx%97 == 0 {
+	if rec.WantSample() && nontrivial && idx%197 == 0 {
 		rec.Sample(map[string]any{"plan": desc, "log": w.log})
 	}
 }
